@@ -36,7 +36,7 @@ func MainC07(prop, tier string) int {
 	return r.Finish()
 }
 
-var recBits = []string{"a", "b", "foo", "bar", " ", "  ", "\t", "é", "日本", ",", "x,y", "1", "A", "-", "ab"}
+var recBits = []string{"a", "b", "foo", "bar", " ", "  ", "\t", "é", "日本", ",", "x,y", "1", "A", "-", "ab", "100%", "%s", "%d%%", "\\n"}
 var ansiBits = []string{"\x1b[31m", "\x1b[0m", "\x1b[1;32m", "\x1b[m", "\x1b[38;5;100m", "\x0e", "\x0f", "N\x08", "\x0e", "_\x08"}
 
 var ansiRe = regexp.MustCompile("(?:\x1b[\\[()][0-9;:?]*[a-zA-Z@]|\x1b\\][0-9]+[;:][[:print:]]+(?:\x1b\\\\|\x07)|\x1b.|[\x0e\x0f]|.\x08)")
@@ -158,7 +158,7 @@ func workerC07Filter(r *vk.Run, w, n int, args []string) {
 			argv = append(argv, "--tac")
 			sigs = append(sigs, "tac")
 		}
-		query := []string{"", "", "a", "foo", "'b", "!a", "#1", "é", "^a"}[rng.Intn(9)]
+		query := []string{"", "", "a", "foo", "'b", "!a", "#1", "é", "^a", "%", "0%"}[rng.Intn(11)]
 		argv = append(argv, "--filter", query)
 		var stdin bytes.Buffer
 		for k, rec := range recs {
@@ -454,6 +454,20 @@ func sessionC07(r *vk.Run, rng *rand.Rand, idx int) {
 				}
 			}
 		}
+		// sometimes the query is then changed to one that matches nothing: a selection survives, there
+		// is no current line
+		if rng.Intn(4) == 0 {
+			query = "zzzz-no-such"
+			s.Post("change-query(" + query + ")")
+			hist = append(hist, "change-query("+query+")")
+			st2, ok := s.WaitQuiescent(30 * time.Second)
+			if !ok {
+				r.Inconclusive("no quiescence after the query change: " + s.LastWait)
+				return
+			}
+			st = st2
+			wit["query"] = query
+		}
 		cur := -1
 		if st.Current != nil && st.MatchCount > 0 {
 			cur = st.Current.Index
@@ -543,6 +557,14 @@ func sessionC07(r *vk.Run, rng *rand.Rand, idx int) {
 	}
 	rc, exited := s.WaitExit(30 * time.Second)
 	if !exited {
+		// an ending that was consumed (hook trace) but did not end the session although it must
+		if (ending == "accept-non-empty" || ending == "accept-or-print-query" || ending == "print-query" || ending == "abort") && s.WaitConsumed(10*time.Second) {
+			if _, ex := s.ExitCode(); !ex {
+				wit["history"], wit["ending"] = hist, ending
+				r.Violate(vk.Violation{Summary: fmt.Sprintf("C07: fzf %q: %s was taken by the interface but did not end the session (expected output %q)", argv, ending, expOut), Witness: wit})
+				return
+			}
+		}
 		r.Inconclusive(fmt.Sprintf("session did not end after %q", ending))
 		return
 	}
